@@ -230,5 +230,5 @@ func run(c Case, o *lib.Obs) error {
 }
 
 func TestC05(t *testing.T) {
-	lib.Check(t, spec, lib.Scale(40, 1200), gen, run)
+	lib.Check(t, spec, lib.Scale(32, 1200), gen, run)
 }
